@@ -16,8 +16,8 @@ CHECK = {
         {"exe": "c16_tensor_hi", "flavour": "asan", "cases": (SWEEP_HI, SWEEP_HI), "procs": (1, 1), "args": ["--sub", "sweep-hi"], "subs": ["sweep-hi"]},
         # random: small shapes with random salts / gather lists / masks / real-valued integrals (30/31 resp. 30/41 of the
         # cases), shapes up to 1e5 elements (1/31 resp. 1/41), nano::stack (10/41)
-        {"exe": "c16_tensor", "flavour": "asan", "cases": (31000, 620000), "procs": (3, 6), "subs": ["small", "large"]},
-        {"exe": "c16_tensor_hi", "flavour": "asan", "cases": (41000, 492000), "procs": (3, 6), "subs": ["small-hi", "large-hi", "stack"]},
+        {"exe": "c16_tensor", "flavour": "asan", "cases": (20000, 620000), "procs": (3, 6), "subs": ["small", "large"]},
+        {"exe": "c16_tensor_hi", "flavour": "asan", "cases": (26000, 492000), "procs": (3, 6), "subs": ["small-hi", "large-hi", "stack"]},
     ],
     "fuzzers": [{"exe": "fz_tensor", "runs": (4000, 600000), "max_len": 256, "jobs": (4, 12)}],
     "min_nontrivial": (9900, 9900),
